@@ -103,3 +103,8 @@ Inductive reachable (d : list Z) : sys bstate -> Prop :=
     reachable d st'.
 
 Definition in_memory (s : bstate) : Prop := exists d, s = SBytes d.
+
+(* observations equal up to the nil-ness of a byte string (ReadBytes past the end returns nil on the
+   in-memory backend and an empty non-nil slice on the stream backends) *)
+Definition obs_eqv (a b : obs) : Prop :=
+  a = b \/ exists n1 n2 l, a = VData n1 l /\ b = VData n2 l.
